@@ -89,7 +89,7 @@ var epoch = time.Unix(1_700_000_000, 0)
 // cache.sleeper.done; keys of other caches and of earlier histories do not carry the current prefix).
 var (
 	sleepersDone atomic.Int64
-	setsSeen     atomic.Int64 // Set calls of the current plugin's cache (hook cache.set.checked): each starts one sleeper
+	setsSeen     atomic.Int64 // entries stored by Set in the current plugin's cache (hook cache.sleeper.spawn): each starts one sleeper
 	keyPrefix    atomic.Value // string
 	historySeq   int
 )
@@ -290,7 +290,7 @@ var current *flowsRun // the engine whose Retry processor outputs are being reco
 
 func sink(point string, kv ...any) {
 	switch point {
-	case "cache.set.checked":
+	case "cache.sleeper.spawn":
 		if len(kv) >= 2 {
 			pre, _ := keyPrefix.Load().(string)
 			if k, ok := kv[1].(string); ok && pre != "" && strings.HasPrefix(k, pre) {
@@ -536,6 +536,39 @@ func (f *flowsRun) respMulti(e Event) []vh.Ev {
 	return evs
 }
 
+// burst: n fresh sequences fail once each (first eligible response, URL of the wildcard flow's share only when several
+// flows exist): many concurrently open sequences in the counter store.  Counted, not recorded one by one.
+func (f *flowsRun) burst(n, st int, u string) vh.Ev {
+	if f.pump {
+		vh.Die("flows: bursts run with a zero cool-down only")
+	}
+	if u == "" {
+		u = "x"
+	}
+	retried := 0
+	for i := 0; i < n; i++ {
+		f.txn++
+		seq := fmt.Sprintf("%sb%d", f.prefix, f.txn)
+		api := streamtypes.NewResponseAPIStream(lunarMessages.OnResponse{
+			ID: seq, SequenceID: seq, Method: "GET", URL: "api.test/" + u, Status: st, Headers: map[string]string{},
+		}, lunarcontext.NewMemoryState[[]byte]())
+		acts := &streamconfig.StreamActions{Request: &streamconfig.RequestStream{}, Response: &streamconfig.ResponseStream{}}
+		if err := f.eng.ExecuteFlow(api, acts); err != nil {
+			vh.Die("flows: burst: %v", err)
+		}
+		for _, a := range acts.Response.Actions {
+			if _, ok := a.(*actions.RetryRequestAction); ok {
+				retried++
+				break
+			}
+		}
+	}
+	f.mu.Lock()
+	f.seen, f.execs = nil, nil
+	f.mu.Unlock()
+	return vh.Ev{"ev": "burst", "n": n, "st": st, "retried": retried}
+}
+
 func (f *flowsRun) adv(d int) {
 	f.clock.AdvanceTime(time.Duration(d) * time.Second)
 }
@@ -615,6 +648,8 @@ func main() {
 				case "burst":
 					if pol != nil {
 						tr.Add(pol.burst(e.N, e.St))
+					} else if fl != nil {
+						tr.Add(fl.burst(e.N, e.St, e.U))
 					}
 				case "adv":
 					if pol != nil {
